@@ -41,14 +41,76 @@ def is_compiler_fence(name):
     return name == 'std::sync::atomic::compiler_fence'
 
 
-def target_field(v):
-    """the self-field a pointer argument is derived from ('generation', 'version', 'ceb', ...)"""
+HEADER_ROLES = ('generation', 'version')     # names of the header's members (PROTOCOL.md / ShmHeader)
+ROLES = {}                                    # struct field name -> role, filled by pointer_roles(fb)
+_ROLES_FOR = [None]
+
+
+def pointer_role(v):
+    """role of a pointer *value* built in ShmWriter::new / ShmReader::new: which part of the mapping it addresses"""
+    if v[0] == 'ref' and v[1][0][0] == 'S' and v[1][1] and v[1][1][-1][0] == 'f' and v[1][1][-1][2] in HEADER_ROLES and \
+            'mmap' in fmt(v[1][0][1]):
+        return v[1][1][-1][2]
     s = fmt(v)
-    for f in ('generation', 'version', 'ceb_shm', 'ceb', 'snapshot_ceb', 'snapshot_gen'):
+    if 'mmap' not in s:
+        return None
+    for x in psi.walk(v):
+        if x[0] == 't' and x[1] == 'call' and x[2][0].endswith(('::add', '::offset', '::byte_add')) and 'mmap' in fmt(x):
+            return 'ceb'
+    for h in HEADER_ROLES:
+        if s.endswith('.%s' % h) or ('.%s)' % h) in s:
+            return h
+    return 'mapping'
+
+
+def pointer_roles(fb):
+    """{field name of ShmWriter / ShmReader (or of a struct nested in them): role}, read off the values the two
+    constructors return; so that `self.<field>` in write()/snapshot() is classified by what the constructor put there"""
+    if _ROLES_FOR[0] is fb:
+        return ROLES
+    _ROLES_FOR[0] = fb
+    ROLES.clear()
+    from .open_model import layout_in
+    for side in ('ShmWriter', 'ShmReader'):
+        for b in fb.bodies(common.SHM):
+            if not (b.name == 'new' and (b.impl_self or '').endswith(side) and b.defkind != 'Closure'):
+                continue
+            eng = common.mk_engine(fb, inline_depth=8, no_inline=(
+                (lambda x: x.name == 'new' and (x.impl_self or '').endswith('ShmReader')) if side == 'ShmWriter' else None))
+            for p in eng.run(b):
+                if not (p.kind == 'return' and p.value[0] == 'agg' and p.value[2] == 'Ok' and p.value[3]):
+                    continue
+
+                def rec(v, depth=0):
+                    if v[0] != 'agg' or depth > 3 or v[2] is None:
+                        return
+                    adt = eng.find_adt(v[1], b.crate)
+                    if not adt or not adt.get('variants'):
+                        return
+                    names = [f['name'] for f in adt['variants'][0]['fields']]
+                    if len(names) != len(v[3]):
+                        return
+                    for nm, fv in zip(names, v[3]):
+                        r = pointer_role(fv)
+                        if r is not None and fv[0] != 'agg':
+                            ROLES.setdefault(nm, r)
+                        elif fv[0] == 'agg' and fv[1].startswith(common.SHM):
+                            rec(fv, depth + 1)
+                rec(p.value[3][0])
+    return ROLES
+
+
+def target_field(v):
+    """the part of the mapping a pointer argument addresses ('generation', 'version', 'ceb', 'mapping'), via the
+    struct field it was loaded from (roles table) or, inside the constructors, via its own provenance"""
+    r = pointer_role(v)
+    if r is not None:
+        return r
+    s = fmt(v)
+    names = dict(ROLES) if ROLES else {'generation': 'generation', 'version': 'version', 'ceb_shm': 'ceb', 'ceb': 'ceb'}
+    for f in sorted(names, key=lambda x: -len(x)):
         if ('self.%s' % f) in s or ('.%s)' % f) in s or s.endswith('.%s' % f):
-            return f
-    if 'mmap' in s:
-        return 'mapping'
+            return names[f]
     return None
 
 
@@ -106,6 +168,7 @@ class WriterModel:
             return
         self.body = cands[0]
         chk.saw(self.body)
+        pointer_roles(fb)
         self.engine = common.mk_engine(fb)
         self.paths = [p for p in self.engine.run(self.body) if p.kind != 'unreachable']
         chk.analysed['paths'] += len(self.paths)
@@ -130,6 +193,7 @@ class ReaderModel:
             return
         self.body = cands[0]
         chk.saw(self.body)
+        pointer_roles(fb)
         self.engine = common.mk_engine(fb, loop_unroll=unroll)
         self.paths = [p for p in self.engine.run(self.body) if p.kind != 'unreachable']
         chk.analysed['paths'] += len(self.paths)
